@@ -144,6 +144,8 @@ impl Future for AnyFut {
     }
 }
 
+/// The services are built from a CLONE of the configured `Acceptor` (a server's factory closure clones it per worker): the
+/// clone must carry the handshake timeout over.
 /// `rv` = which rustls acceptor plays the "r" service (23 default, 22, 21, 20); `ov` = o (OpenSSL, default) or n (native-tls)
 /// for the "o" service.  All of them share the per-thread handshake counter.
 async fn make_services(pki: &Pki, tr: u64, to: u64, rv: &str, ov: &str) -> (AnySvc, AnySvc) {
@@ -153,34 +155,34 @@ async fn make_services(pki: &Pki, tr: u64, to: u64, rv: &str, ov: &str) -> (AnyS
         "22" => {
             let mut a = ar22::Acceptor::new(rustls22_server_config(id));
             a.set_handshake_timeout(dr);
-            AnySvc::R22(<ar22::Acceptor as ServiceFactory<Mem>>::new_service(&a, ()).await.unwrap())
+            AnySvc::R22(<ar22::Acceptor as ServiceFactory<Mem>>::new_service(&a.clone(), ()).await.unwrap())
         }
         "21" => {
             let mut a = ar21::Acceptor::new(rustls21_server_config(id));
             a.set_handshake_timeout(dr);
-            AnySvc::R21(<ar21::Acceptor as ServiceFactory<Mem>>::new_service(&a, ()).await.unwrap())
+            AnySvc::R21(<ar21::Acceptor as ServiceFactory<Mem>>::new_service(&a.clone(), ()).await.unwrap())
         }
         "20" => {
             let mut a = ar20::Acceptor::new(rustls20_server_config(id));
             a.set_handshake_timeout(dr);
-            AnySvc::R20(<ar20::Acceptor as ServiceFactory<Mem>>::new_service(&a, ()).await.unwrap())
+            AnySvc::R20(<ar20::Acceptor as ServiceFactory<Mem>>::new_service(&a.clone(), ()).await.unwrap())
         }
         _ => {
             let mut a = arustls::Acceptor::new(rustls_server_config(id));
             a.set_handshake_timeout(dr);
-            AnySvc::R(<arustls::Acceptor as ServiceFactory<Mem>>::new_service(&a, ()).await.unwrap())
+            AnySvc::R(<arustls::Acceptor as ServiceFactory<Mem>>::new_service(&a.clone(), ()).await.unwrap())
         }
     };
     let os = match ov {
         "n" => {
             let mut a = anative::Acceptor::new(native_acceptor(id));
             a.set_handshake_timeout(dto);
-            AnySvc::N(<anative::Acceptor as ServiceFactory<Mem>>::new_service(&a, ()).await.unwrap())
+            AnySvc::N(<anative::Acceptor as ServiceFactory<Mem>>::new_service(&a.clone(), ()).await.unwrap())
         }
         _ => {
             let mut a = aossl::Acceptor::new(openssl_acceptor(id));
             a.set_handshake_timeout(dto);
-            AnySvc::O(<aossl::Acceptor as ServiceFactory<Mem>>::new_service(&a, ()).await.unwrap())
+            AnySvc::O(<aossl::Acceptor as ServiceFactory<Mem>>::new_service(&a.clone(), ()).await.unwrap())
         }
     };
     (rs, os)
